@@ -1822,7 +1822,7 @@ with_kinds(["sptensor.scale_dense", "sptensor.scale_sparse"], _SP1)
 
 
 # sptensor.scale(factor, dims) with a NUMPY VECTOR as factor ("a scaling factor array of length 3 ... along mode 2"): one mode, and the
-# vector has that mode's length.  Descriptor: shape, receiver stores an entry or not, length of the vector, mode list
+# vector has that mode's length (a receiver without entries compares the vector's shape too: C19-N27 repaired, 98f7017).  Descriptor: shape, receiver stores an entry or not, length of the vector, mode list
 def _pre_sp_scale_arr(a):
     return modes_ok(len(a["s"]), a["d"]) and len(a["d"]) == 1 and a["flen"] == a["s"][a["d"][0]]
 
@@ -2130,7 +2130,14 @@ FIXED = {"C19-N02": "b4434a4", "C19-N03": "d384651", "A-42": "f9fb7ec", "A-44": 
          "C19-N10": "d3df9c1", "C19-N12": "922ff4e", "C19-N13": "7d1fad0", "C19-N14": "f8cdd2b", "C19-N15": "03352d0",
          "C19-N01": "072fe0a", "C19-N09": "4943733", "C19-N16": "2c0f010", "C19-N17": "929a206", "C19-N19": "3b2d1cd",
          "C19-N20": "dc71f18", "C19-N21": "76fa98e", "C19-N22": "db95721", "C19-N23": "453f75b", "C19-N24": "d89c921",
-         "C19-N25": "b9311d6", "C19-N26": "553ad5e"}
+         "C19-N25": "b9311d6", "C19-N26": "553ad5e", "C19-N27": "98f7017", "C19-N28": "0478ea5"}
+# C19-N29 (fixes/C19-N29.diff = 9d2314a, pending until C02's reconstruct model follows): the lead adds  "C19-N29": "<commit>"  above —
+# trigger and witness go, and the correspondence runs guard_reconstruct_fixed (the method WITH the range / distinctness test:
+# C19_reconstruct_repaired, guard = decide pre for all requests) instead of guard_reconstruct (the method of the tree without it).
+# While the finding is open both trees are green: outside the trigger the two guards agree (C19_reconstruct_gap), inside it pyttb is
+# compared with the precondition alone.
+if "C19-N29" in FIXED:
+    OPS["ttensor.reconstruct"].guard_c = "reconstruct_fixed"
 
 
 def finding(fid, trigger, pred, op, witness, what, call_site, proposed="fix", observed="a value is returned",
@@ -2420,6 +2427,24 @@ finding("C19-N26", "c19_n26_dense_mask_order_one",
         "tensor.mask(W) compares np.array(W.shape) > np.array(self.shape) without comparing the orders (sptensor.mask and ktensor.mask "
         "do): a 1-way mask is broadcast against every mode and then used as an index of the first mode only, so T(2 x 3).mask(W(2)) "
         "returns rows of the data instead of raising 'Mask cannot be bigger than the data tensor'", "tensor.mask")
+
+
+# witness inputs of repaired findings stay in the stream as ordinary ill-formed cases (tag regression_<finding>): exactly one
+# behaviour is accepted for them — rejected, receiver unchanged, guard and precondition agree
+def _keep_witnesses_as_regressions():
+    byop = {}
+    for f in FINDINGS:
+        if f["status"] == "fixed":
+            byop.setdefault(f["witness"]["op"], []).append((f["finding_id"], f["witness"]["args"]))
+    for name, ws in byop.items():
+        op = OPS[name]
+
+        def gen(rng, tier, _g=op.gen, _ws=tuple(ws)):
+            return list(_g(rng, tier)) + [(dict(w), "regression_" + fid.lower().replace("-", "_")) for fid, w in _ws]
+        op.gen = gen
+
+
+_keep_witnesses_as_regressions()
 
 
 if __name__ == "__main__":
